@@ -1,7 +1,7 @@
 (* C17 -- Deformation regularisers have the right null space, sign, scaling and units.
    Statements only.  A scalar image is a function of the multi-index (x, y, ...) on the lattice
    0 <= i_d < n_d (any D, any shape); a vector field is the list of its components.  The stencil
-   model (Model/RegStencil.v: forward_central_backward scheme, zero-padded [1,w,1] cross smoothing of
+   model (Model/RegStencil.v: forward_central_backward scheme, replicate-padded [1,w,1] cross smoothing of
    'sobel'/'prewitt') is tied to core/image.py by the correspondence check; the coefficient structure
    of every loss, the lame_parameters table and the denormalize_flow factors are traced from the
    source (Gen/Regs.v, theorems C17_gen_...). *)
@@ -14,14 +14,15 @@ Import ListNotations.
 Local Open Scope fld_scope.
 
 (* ================= 1. null space of bending and curvature ============================================ *)
-(* the forward/central/backward scheme differentiates affine functions exactly at EVERY lattice point *)
-Theorem C17_fcb_exact_on_affine :
+(* every derivative mode of the model (forward_central_backward; 'sobel' and 'prewitt' with their replicate-padded
+   cross smoothing) differentiates affine functions exactly at EVERY lattice point, any dimension and shape *)
+Theorem C17_exact_on_affine :
   forall (K : fld), is_field K -> char0 K ->
-  forall sh (sp : list K) d e c (a : list K) (i : idx),
-  (hs sp d <> 0 -> (d < length i)%nat -> d1 MFcb sh sp d (aff c a) i = nth d a 0 / hs sp d) /\
-  (hs sp (Nat.min d e) <> 0 -> (Nat.min d e < length i)%nat -> d2 MFcb sh sp d e (aff c a) i = 0).
-Proof. intros K Kf Kc sh sp d e c a i. split; [exact (d1_fcb_aff K Kf Kc sh sp d c a i) | exact (d2_fcb_aff K Kf Kc sh sp d e c a i)]. Qed.
-Print Assumptions C17_fcb_exact_on_affine.
+  forall m sh (sp : list K) d e c (a : list K) (i : idx),
+  (hs sp d <> 0 -> (d < length i)%nat -> d1 m sh sp d (aff c a) i = nth d a 0 / hs sp d) /\
+  (hs sp (Nat.min d e) <> 0 -> (Nat.min d e < length i)%nat -> d2 m sh sp d e (aff c a) i = 0).
+Proof. intros K Kf Kc m sh sp d e c a i. split; [exact (d1_aff K Kf Kc m sh sp d c a i) | exact (d2_aff K Kf Kc m sh sp d e c a i)]. Qed.
+Print Assumptions C17_exact_on_affine.
 
 (* bending and curvature vanish on affine fields and are unchanged by adding one: at every point where
    the second derivatives of the affine field vanish (flat_at) ... *)
@@ -39,77 +40,43 @@ Proof.
 Qed.
 Print Assumptions C17_bending_curvature_null_and_invariant.
 
-(* ... which for forward_central_backward is every lattice point, any D and shape ... *)
-Theorem C17_fcb_affine_flat_everywhere :
+(* ... which is every lattice point, for every derivative mode (including the default 'sobel'), any D and shape *)
+Theorem C17_affine_flat_everywhere :
   forall (K : fld), is_field K -> char0 K ->
-  forall sh (sp : list K) (v : list (idx -> K)) t A (i : idx),
-  is_affine_field K v t A -> spacing_ok K sh sp -> length i = length sh -> flat_at K MFcb sh sp v i.
-Proof. exact fcb_affine_flat. Qed.
-Print Assumptions C17_fcb_affine_flat_everywhere.
-
-(* ... and for the default 'sobel' (and 'prewitt') every point at least two samples from the boundary *)
-Theorem C17_sobel_affine_flat_interior :
-  forall (K : fld), is_field K -> char0 K -> forall m, m <> MFcb ->
-  (forall (nx ny x y : Z) (hx hy c a0 a1 : K),
-     (2 <= x <= nx - 3)%Z -> (2 <= y <= ny - 3)%Z -> hx <> 0 -> hy <> 0 ->
-     forall d e, (d < 2)%nat -> (e < 2)%nat -> d2 m [nx; ny] [hx; hy] d e (aff c [a0; a1]) [x; y] = 0) /\
-  (forall (nx ny nz x y z : Z) (hx hy hz c a0 a1 a2 : K),
-     (2 <= x <= nx - 3)%Z -> (2 <= y <= ny - 3)%Z -> (2 <= z <= nz - 3)%Z -> hx <> 0 -> hy <> 0 -> hz <> 0 ->
-     forall d e, (d < 3)%nat -> (e < 3)%nat -> d2 m [nx; ny; nz] [hx; hy; hz] d e (aff c [a0; a1; a2]) [x; y; z] = 0).
-Proof.
-  intros K Kf Kc m Hm. split.
-  - intros nx ny x y hx hy c a0 a1 Hx Hy Hhx Hhy d e Hd He.
-    destruct (sobel2_interior K Kf Kc nx ny x y hx hy c a0 a1 Hx Hy Hhx Hhy m Hm) as (A & B & C & D).
-    destruct d as [|[|d]], e as [|[|e]]; try assumption; exfalso; lia.
-  - intros nx ny nz x y z hx hy hz c a0 a1 a2 Hx Hy Hz Hhx Hhy Hhz d e Hd He.
-    exact (sobel3_interior K Kf Kc nx ny nz x y z hx hy hz c a0 a1 a2 Hx Hy Hz Hhx Hhy Hhz m Hm d e Hd He).
-Qed.
-Print Assumptions C17_sobel_affine_flat_interior.
-
-(* full strength ("vanish for affine deformations" with the default mode) is FALSE at the boundary:
-   the zero-padded smoothing makes the bending energy of an affine field non-zero there *)
-Theorem C17_sobel_affine_boundary_refuted :
-  exists (v : list (idx -> QcF)) (i : idx),
-    is_affine_field QcF v (fun c => nth c [q 0 1; q 1 1] (q 0 1)) (fun c => nth c [[q 1 1; q 2 1]; [q 0 1; q 3 1]] []) /\
-    inbox [5; 5]%Z i /\
-    qeqb (bending_pt (K:=QcF) MSobel [5; 5]%Z [q 1 1; q 1 1] v i) (q 0 1) = false /\
-    qeqb (bending_pt (K:=QcF) MFcb [5; 5]%Z [q 1 1; q 1 1] v i) (q 0 1) = true.
-Proof.
-  exists [aff (K:=QcF) (q 0 1) [q 1 1; q 2 1]; aff (K:=QcF) (q 1 1) [q 0 1; q 3 1]], [1; 0]%Z.
-  split; [intros [|[|c]] j; try destruct c; reflexivity|]. split; [cbn; repeat split; discriminate|]. vm_compute. split; reflexivity.
-Qed.
-Print Assumptions C17_sobel_affine_boundary_refuted.
+  forall m sh (sp : list K) (v : list (idx -> K)) t A (i : idx),
+  is_affine_field K v t A -> spacing_ok K sh sp -> length i = length sh -> flat_at K m sh sp v i.
+Proof. exact affine_flat. Qed.
+Print Assumptions C17_affine_flat_everywhere.
 
 (* ================= 2. first-order terms: translations and analytic values on affine fields =========== *)
 Theorem C17_gradient_terms_on_affine :
   forall (K : fld), is_field K -> char0 K ->
-  forall sh (sp : list K) (v : list (idx -> K)) t A (i : idx) (fabs : K -> K) lambda mu,
+  forall m sh (sp : list K) (v : list (idx -> K)) t A (i : idx) (fabs : K -> K) lambda mu,
   is_affine_field K v t A -> spacing_ok K sh sp -> length i = length sh ->
   let Jm := J K sp A in
-  diffusion_pt MFcb sh sp v i = sumf (dims sh) (fun d => sumf (dims sh) (fun c => sq (Jm c d))) / (1 + 1) /\
-  tv_pt MFcb sh sp v i fabs = sumf (dims sh) (fun d => sumf (dims sh) (fun c => fabs (Jm c d))) /\
-  div_pt MFcb sh sp v i = sq (sumf (dims sh) (fun c => Jm c c)) / (1 + 1) /\
-  elasticity_pt MFcb sh sp v i lambda mu
+  diffusion_pt m sh sp v i = sumf (dims sh) (fun d => sumf (dims sh) (fun c => sq (Jm c d))) / (1 + 1) /\
+  tv_pt m sh sp v i fabs = sumf (dims sh) (fun d => sumf (dims sh) (fun c => fabs (Jm c d))) /\
+  div_pt m sh sp v i = sq (sumf (dims sh) (fun c => Jm c c)) / (1 + 1) /\
+  elasticity_pt m sh sp v i lambda mu
   = sq (sumf (dims sh) (fun c => Jm c c)) * (lambda / (1 + 1))
     + sumf (dims sh) (fun j => sumf (dims sh) (fun k => sq (Jm j k + Jm k j) * (mu / ((1 + 1) * (1 + 1))))).
 Proof.
-  intros K Kf Kc sh sp v t A i fabs lambda mu Hv Hsp Hl.
-  exact (conj (diffusion_affine K Kf Kc sh sp v t A i Hv Hsp Hl) (conj (tv_affine K Kf Kc sh sp v t A i Hv Hsp Hl fabs)
-        (conj (divergence_affine K Kf Kc sh sp v t A i Hv Hsp Hl) (elasticity_affine K Kf Kc sh sp v t A i Hv Hsp Hl lambda mu)))).
+  intros K Kf Kc m sh sp v t A i fabs lambda mu Hv Hsp Hl.
+  exact (conj (diffusion_affine K Kf Kc m sh sp v t A i Hv Hsp Hl) (conj (tv_affine K Kf Kc m sh sp v t A i Hv Hsp Hl fabs)
+        (conj (divergence_affine K Kf Kc m sh sp v t A i Hv Hsp Hl) (elasticity_affine K Kf Kc m sh sp v t A i Hv Hsp Hl lambda mu)))).
 Qed.
 Print Assumptions C17_gradient_terms_on_affine.
 
 Theorem C17_gradient_terms_vanish_on_translations :
   forall (K : fld), is_field K -> char0 K ->
-  forall sh (sp : list K) (v : list (idx -> K)) t (i : idx) (fabs : K -> K) lambda mu,
+  forall m sh (sp : list K) (v : list (idx -> K)) t (i : idx) (fabs : K -> K) lambda mu,
   is_affine_field K v t (fun _ => []) -> spacing_ok K sh sp -> length i = length sh -> fabs 0 = 0 ->
-  diffusion_pt MFcb sh sp v i = 0 /\ tv_pt MFcb sh sp v i fabs = 0 /\ div_pt MFcb sh sp v i = 0 /\
-  elasticity_pt MFcb sh sp v i lambda mu = 0.
+  diffusion_pt m sh sp v i = 0 /\ tv_pt m sh sp v i fabs = 0 /\ div_pt m sh sp v i = 0 /\
+  elasticity_pt m sh sp v i lambda mu = 0.
 Proof. exact translation_zero. Qed.
 Print Assumptions C17_gradient_terms_vanish_on_translations.
 
-(* the same analytic values in ANY derivative mode at every point where the first differences of the field are
-   exact, and for 'sobel' / 'prewitt' they are exact on affine functions two samples from the boundary (D = 2, 3) *)
+(* the same values follow in any derivative mode from exact first differences alone (used for non-affine fields) *)
 Theorem C17_gradient_terms_from_exact_differences :
   forall (K : fld), is_field K ->
   forall m sh (sp : list K) (v : list (idx -> K)) (Jm : nat -> nat -> K) (i : idx) (fabs : K -> K) lambda mu,
@@ -122,24 +89,6 @@ Theorem C17_gradient_terms_from_exact_differences :
     + sumf (dims sh) (fun j => sumf (dims sh) (fun k => sq (Jm j k + Jm k j) * (mu / ((1 + 1) * (1 + 1))))).
 Proof. intros K Kf m sh sp v Jm i fabs lambda mu H. exact (gradient_terms_exact K m sh sp v Jm i H fabs lambda mu). Qed.
 Print Assumptions C17_gradient_terms_from_exact_differences.
-
-Theorem C17_sobel_first_differences_interior :
-  forall (K : fld), is_field K -> char0 K -> forall m, m <> MFcb ->
-  (forall (nx ny x y : Z) (hx hy c a0 a1 : K),
-     (2 <= x <= nx - 3)%Z -> (2 <= y <= ny - 3)%Z -> hx <> 0 -> hy <> 0 ->
-     d1 m [nx; ny] [hx; hy] 0 (aff c [a0; a1]) [x; y] = a0 / hx /\ d1 m [nx; ny] [hx; hy] 1 (aff c [a0; a1]) [x; y] = a1 / hy) /\
-  (forall (nx ny nz x y z : Z) (hx hy hz c a0 a1 a2 : K),
-     (2 <= x <= nx - 3)%Z -> (2 <= y <= ny - 3)%Z -> (2 <= z <= nz - 3)%Z -> hx <> 0 -> hy <> 0 -> hz <> 0 ->
-     d1 m [nx; ny; nz] [hx; hy; hz] 0 (aff c [a0; a1; a2]) [x; y; z] = a0 / hx /\
-     d1 m [nx; ny; nz] [hx; hy; hz] 1 (aff c [a0; a1; a2]) [x; y; z] = a1 / hy /\
-     d1 m [nx; ny; nz] [hx; hy; hz] 2 (aff c [a0; a1; a2]) [x; y; z] = a2 / hz).
-Proof.
-  intros K Kf Kc m Hm. split.
-  - intros nx ny x y hx hy c a0 a1 Hx Hy Hhx Hhy. exact (sobel2_d1_interior K Kf Kc nx ny x y hx hy c a0 a1 Hx Hy Hhx Hhy m Hm).
-  - intros nx ny nz x y z hx hy hz c a0 a1 a2 Hx Hy Hz Hhx Hhy Hhz.
-    exact (sobel3_d1_interior K Kf Kc nx ny nz x y z hx hy hz c a0 a1 a2 Hx Hy Hz Hhx Hhy Hhz m Hm).
-Qed.
-Print Assumptions C17_sobel_first_differences_interior.
 
 (* ================= 3. sign, homogeneity, spacing, reductions ========================================= *)
 Theorem C17_nonnegative :
@@ -359,7 +308,7 @@ Example C17_nonvacuous :
   let U : list (idx -> QcF) := [fun i => of_Z (K:=QcF) (RegStencil.get 0 i * RegStencil.get 0 i + RegStencil.get 1 i); fun i => of_Z (K:=QcF) (RegStencil.get 0 i * RegStencil.get 1 i)] in
   (* a non-affine field has non-zero bending energy; the affine one has a non-zero diffusion value *)
   qeqb (bending_pt MFcb sh sp U [2; 3]%Z) (q 0 1) = false /\
-  qeqb (bending_pt MSobel sh sp A [2; 3]%Z) (q 0 1) = true /\
+  qeqb (bending_pt MSobel sh sp A [0; 5]%Z) (q 0 1) = true /\
   qeqb (diffusion_pt MFcb sh sp A [0; 5]%Z) (q 0 1) = false /\
   List.length (box sh) = 30%nat /\
   (* lame: a valid (G, nu) pair *)
